@@ -103,3 +103,11 @@ Definition chk_c06_order (c : c06_order_case) : Z :=
   | _, _ => 2
   end
   end.
+
+(* ---- strengthening round 2: held names vs. carried names (Model/C06Held.v). The implementation refuses the design (Orphanage)
+        exactly when the model's namespace holds some attribute under a name it does not carry. 0 ok, 2 tie broken. What a returned
+        package looks like is judged by chk_c06_full like any other package. *)
+Require Import Hdl21.Model.C06Held.
+Record c06_held_case := { hc_ops : list hop; hc_refused : bool }.
+Definition chk_c06_held (c : c06_held_case) : Z :=
+  if Bool.eqb (orphanage_ok (hrun (hc_ops c))) (negb (hc_refused c)) then 0 else 2.
